@@ -990,7 +990,9 @@ pub fn fuzz_one(data: &[u8]) {
     // No trip wire here: an oversized request reaches the allocator, where libFuzzer's malloc limit
     // (or the sanitizer's own size check) turns it into a crash with a saved input.
     let (sel, stream) = data.split_at(2);
-    let sizes = [1 + (sel[0] & 0x3f) as usize, 1 + (sel[1] as usize) * ((sel[0] >> 6) as usize + 1)];
+    // at most ~256 chunks per stream: the work per iteration stays linear in the input
+    let floor = stream.len() / 128;
+    let sizes = [floor + 1 + (sel[0] & 0x3f) as usize, floor + 1 + (sel[1] as usize) * ((sel[0] >> 6) as usize + 1)];
     FUZZ_CTX.with(|ctx| {
         let r = (|| -> CaseResult {
             let (whole, werr, wleft) = fuzz_feed(ctx, stream, &[])?;
